@@ -226,7 +226,7 @@ func c17Nested(w *mc.Worker, flagsOn map[string]struct{}) {
 		edits = 2
 	}
 	w.Stage(fmt.Sprintf("nested-sendall-e%d", edits), fmt.Sprintf("%d send-all scripts with nested capped scopes, <= %d edit(s) each (incl. replacing any source leaf by @world / unbounded overdraft / allotment); balances a=b=5", len(bases), edits), func() {
-		w.Outer("nested-sendall/base", 0, func(o *mc.Explorer) {
+		w.Outer(fmt.Sprintf("nested-sendall-e%d/base", edits), 0, func(o *mc.Explorer) {
 			bi_ := o.Choose(len(bases))
 			if !w.Mine(fmt.Sprint("nested", bi_)) {
 				return
